@@ -1471,12 +1471,173 @@ func genCodec(r *Repo) (string, error) {
 	fmt.Fprintf(&b, "\n(* recv: the decode buffer handed to m.decode is the pooled (or new) slice cut to exactly the size read from the stream:\n   data := *datap; data = make([]byte, size) | data = data[:size]; dataBuf = buffer{data: data} *)\nDefinition gen_recv_buffer_exact : bool := %s.\n", boolc(g.factRecvBufferExact()))
 	fmt.Fprintf(&b, "(* tread.handle: n, err = file.ReadAt(buf[:count], off)  and the reply carries  Data: buf[:n], fullBuffer: buf *)\nDefinition gen_rread_data_is_n : bool := %s.\n", boolc(g.factRreadDataIsN()))
 	fmt.Fprintf(&b, "(* rreadServerPayloader.PayloadCleanup: copy(r.Data, r.cs.pristineZeros) and only then readBufPool.Put(&r.fullBuffer);\n   pristineZeros and the pooled buffers are both make([]byte, msize) *)\nDefinition gen_cleanup_zeroes_before_put : bool := %s.\n", boolc(g.factCleanupZeroes()))
+	// recv's appendBuffer read structurally: which view of the pooled buffer decides growth, is handed to decode, is filled by ReadFrom
+	cmpS, decS, rdS := g.recvSlices()
+	fmt.Fprintf(&b, "\n(* recv's appendBuffer, pooled branch: the view of the pooled buffer whose length is compared with size, the view handed to m.decode\n   (buffer{data: ...}) and the view appended to vecs (filled by ReadFrom): \"first\" = x[:size], \"len\" = *datap, \"cap\" = x[:cap(x)]; the other\n   branch must be make([]byte, size) *)\nDefinition gen_recv_grow_cmp : string := %q.\nDefinition gen_recv_decode_slice : string := %q.\nDefinition gen_recv_read_slice : string := %q.\n", cmpS, decS, rdS)
 	// the pool operations a Tread goes through, in execution order (success path): tread.handle, then send
 	// (WriteTo, deferred PayloadCleanup inlined).  "?" marks anything the reader does not understand: the
 	// obligation GenCheckReuse.read_ops_spec then fails; never a refusal.
 	ops := append(g.roEvents(g.funcs["tread.handle"]), g.roEvents(g.funcs["send"])...)
 	fmt.Fprintf(&b, "\n(* pool operations of one Tread in execution order: tread.handle (readBufPool.Get, ReadAt / xattr copy into the buffer, any Put), then send\n   (vecs.WriteTo, the deferred PayloadCleanup of rreadServerPayloader inlined: zeroing copy, readBufPool.Put); deferred calls run at function end *)\nDefinition gen_read_ops : list string := %s.\n", cgStrList(ops))
 	return b.String(), nil
+}
+
+// recvSlices evaluates recv's appendBuffer closure symbolically on the branch where the pooled buffer is kept.
+// A value is a view of the pooled buffer ("len", "cap", "first") or "new" (make([]byte, size)); anything else is "?".
+func (g *cg) recvSlices() (cmp, dec, rd string) {
+	cmp, dec, rd = "?", "?", "?"
+	fd, ok := g.funcs["recv"]
+	if !ok {
+		return
+	}
+	var fl *ast.FuncLit
+	ast.Inspect(fd.Body, func(n ast.Node) bool {
+		if x, ok := n.(*ast.FuncLit); ok && fl == nil && x.Type.Params != nil && len(x.Type.Params.List) == 1 && len(x.Type.Params.List[0].Names) == 1 {
+			has := false
+			ast.Inspect(x.Body, func(m ast.Node) bool {
+				if c, ok := m.(*ast.CallExpr); ok && strings.HasSuffix(g.text(c.Fun), "dataPool.Get") {
+					has = true
+				}
+				return true
+			})
+			if has {
+				fl = x
+			}
+		}
+		return true
+	})
+	if fl == nil {
+		return
+	}
+	size := fl.Type.Params.List[0].Names[0].Name
+	env := map[string]string{} // variable -> view; pointers to the pooled slice are "ptr"
+	var eval func(e ast.Expr) string
+	eval = func(e ast.Expr) string {
+		switch x := e.(type) {
+		case *ast.ParenExpr:
+			return eval(x.X)
+		case *ast.Ident:
+			if v, ok := env[x.Name]; ok && v != "ptr" {
+				return v
+			}
+		case *ast.StarExpr:
+			if id, ok := x.X.(*ast.Ident); ok && env[id.Name] == "ptr" {
+				return "len"
+			}
+		case *ast.SliceExpr:
+			base := eval(x.X)
+			if x.Low != nil || x.Slice3 || x.High == nil || base == "?" {
+				return "?"
+			}
+			h := g.text(x.High)
+			inner := x.X
+			for {
+				p, ok := inner.(*ast.ParenExpr)
+				if !ok {
+					break
+				}
+				inner = p.X
+			}
+			switch {
+			case h == size && base == "new":
+				return "new"
+			case h == size:
+				return "first"
+			case h == "cap("+g.text(inner)+")" && base != "new":
+				return "cap"
+			case h == "len("+g.text(inner)+")":
+				return base
+			}
+		case *ast.CallExpr:
+			if g.text(x) == "make([]byte,"+size+")" {
+				return "new"
+			}
+		}
+		return "?"
+	}
+	bad := false
+	var run func(stmts []ast.Stmt)
+	run = func(stmts []ast.Stmt) {
+		for _, st := range stmts {
+			switch x := st.(type) {
+			case *ast.AssignStmt:
+				if len(x.Lhs) != 1 || len(x.Rhs) != 1 {
+					bad = true
+					continue
+				}
+				l, r := g.text(x.Lhs[0]), x.Rhs[0]
+				rt := g.text(r)
+				switch {
+				case strings.HasSuffix(rt, "dataPool.Get().(*[]byte)"):
+					env[l] = "ptr"
+				case strings.HasPrefix(rt, "&"):
+					// datap = &data on the growing branch only; on the kept branch the pointer must stay the pooled one
+					bad = true
+				case lastArg(r) != nil && rt == "append("+l+","+g.text(lastArg(r))+")":
+					rd = eval(lastArg(r))
+				default:
+					if cl, ok := r.(*ast.CompositeLit); ok && g.text(cl.Type) == "buffer" && len(cl.Elts) == 1 {
+						if kv, ok := cl.Elts[0].(*ast.KeyValueExpr); ok && g.text(kv.Key) == "data" {
+							dec = eval(kv.Value)
+							continue
+						}
+						bad = true
+						continue
+					}
+					if _, isId := x.Lhs[0].(*ast.Ident); !isId {
+						bad = true
+						continue
+					}
+					env[l] = eval(r)
+				}
+			case *ast.IfStmt:
+				// if size > len(X) { grow } [else { keep }]
+				be, ok := x.Cond.(*ast.BinaryExpr)
+				if !ok || x.Init != nil || be.Op != token.GTR || g.text(be.X) != size {
+					bad = true
+					continue
+				}
+				c, ok := be.Y.(*ast.CallExpr)
+				if !ok || g.text(c.Fun) != "len" || len(c.Args) != 1 {
+					bad = true
+					continue
+				}
+				cmp = eval(c.Args[0])
+				// growing branch: must make a buffer of exactly size
+				grew := false
+				for _, gs := range x.Body.List {
+					if as, ok := gs.(*ast.AssignStmt); ok && len(as.Rhs) == 1 && g.text(as.Rhs[0]) == "make([]byte,"+size+")" {
+						grew = true
+					}
+				}
+				if !grew {
+					bad = true
+				}
+				if x.Else != nil {
+					if blk, ok := x.Else.(*ast.BlockStmt); ok {
+						run(blk.List)
+					} else {
+						bad = true
+					}
+				}
+			case *ast.ReturnStmt:
+			default:
+				bad = true
+			}
+		}
+	}
+	run(fl.Body.List)
+	if bad {
+		return "?", "?", "?"
+	}
+	return
+}
+
+func lastArg(e ast.Expr) ast.Expr {
+	if c, ok := e.(*ast.CallExpr); ok && len(c.Args) == 2 {
+		return c.Args[1]
+	}
+	return nil
 }
 
 // roEvents lists the read-buffer-pool events of a function in execution order.  Deferred calls are moved to the
